@@ -1,8 +1,50 @@
-/- line-protocol engine `lex` (stub: answers bad-op until the engine is built) -/
+/- line-protocol engine `lex`: the compiler's lexical handlers (C12, shared with C18).
+Texts travel as comma-separated code points (`_` = empty). -/
+import XrayModel.Lex
+open XrayModel XrayModel.Lex
 namespace XrayDriver
+namespace LexE
+
+def parseCps (s : String) : Option (List Char) :=
+  if s == "_" then some [] else
+  (s.splitOn ",").mapM (fun t => t.toNat?.bind (fun n => if n.isValidChar then some (Char.ofNat n) else none))
+
+def showCps (l : List Char) : String :=
+  if l.isEmpty then "_" else String.intercalate "," (l.map (fun c => toString c.toNat))
+
+def showSym : Sym → String
+  | .item i => s!"item {i}"
+  | .regular s => "regular " ++ showCps s
+
+end LexE
+open LexE
 
 def lexEngine (f : String) (args : List String) : String :=
   match f, args with
+  | "escapes", [s] =>
+    (match parseCps s with
+     | some cs => (match applyEscapes cs with
+        | .ok r => showCps r
+        | .error c => "error " ++ c
+        | .panic _ => "panic")
+     | none => "bad-op")
+  | "brace", [s] =>
+    (match parseCps s with
+     | some cs => showCps (applyBraceEscape cs)
+     | none => "bad-op")
+  | "number", [s] =>
+    (match parseCps s with
+     | some cs => (if isNumberAny cs then "tok " else "notok ") ++
+        (match numberLiteral cs with
+         | .ok (.int v) => s!"int {v}"
+         | .ok .float => "float"
+         | .error c => "error " ++ c
+         | .panic _ => "panic")
+     | none => "bad-op")
+  | "intern", [s] =>
+    (match parseCps s with
+     | some cs => showSym (intern cs) ++ " " ++ showCps (resolve (intern cs))
+     | none => "bad-op")
   | _, _ => "bad-op"
 
 end XrayDriver
